@@ -43,6 +43,8 @@ STATEFUL = [
     "center(bs(x, df=4))", "scale(cr(z, df=3))", "scale(poly(y, 2))", "center(`a b`)", "scale(`a b`):a_b", "scale(`a b`)", "standardize(`a b`)",
     # two different quoted names with the same sanitised alias, inside the same transform
     "center(`a-b`)", "scale(`a-b`)",
+    # the same stateful call written twice inside one factor
+    "I(center(x) * center(x))", "{scale(y) + scale(y) * 2}",
 ]
 STATELESS = ["2.5", "0.5", "3", "log(w)", "np.exp(y)", "I(x * y)", "{x + 1}", "hashed(A, levels=3)", "hashed(H, levels=16)", "hashed(H, levels=8):x", "x", "y", "z", "w", "np.log(w + 1)"]
 LEVELS = {"A": ["b", "a", "d", "c"], "B": ["y", "x", "z"], "G": [3, 1, 2]}
